@@ -944,6 +944,12 @@ def handle (side op : String) (args : List String) : String :=
     (match Model.readenv { home := opt home, pwdir := none, tmpdir := opt tmpdir, tz := none, pathTmp := "/tmp/".toUTF8.toList } with
      | .ok (h, t, _) => s!"OK {toHex h} {toHex t}"
      | .error _ => "EXIT 1")
+  | "M", "renvz", some [home, tmpdir, tz] =>
+    -- readenv with TZ as well: the three copies, the state of ev_tz; what readenv does not assign is never touched by the model
+    let opt (b : Bytes) : Option Bytes := if b == [126] then none else some b
+    (match Model.readenv { home := opt home, pwdir := none, tmpdir := opt tmpdir, tz := opt tz, pathTmp := "/tmp/".toUTF8.toList } with
+     | .ok (h, t, z) => s!"OK {toHex h} {toHex t} {Model.tzState z} {toHex (z.getD [])} INTACT"
+     | .error _ => "EXIT 1")
   | "S", "lbuf", some as => lbufSpec as
   | "M", "isbackref", some [s] =>
     match Model.isBackref s with
